@@ -44,6 +44,12 @@ C->S : NIfTI files with exactly known rational affines (signed permutations,
          file replaced between the calls (other file / corrected header),
          ignore_scaling alternating on a header-scaled integer file; every
          call is judged against the file as it is on disk at that time;
+         and several FILES in one process through the function API
+         (volume_file_to_info, nibabel_image_to_info,
+         store_nibabel_image_to_fullres_info) relying on the functions' DEFAULT
+         options argument, or passing ONE caller-owned options dictionary to
+         every call, with ignore_scaling True first then False (and the
+         reverse): every call is judged on its own arguments;
        * kind "rerun": --generate-info twice on one destination with two
          different volumes (other file, or same data with a corrected header),
          the destination holding the first pair / only transform.json / only
@@ -278,6 +284,42 @@ def make_history(rng, nrng, sp, style):
     return "scaling_toggle", steps
 
 
+def scaled_int_plan(rng, nrng, sp):
+    while True:                # integer storage with header scaling that matters
+        p, data = make_plan(rng, nrng, rng.choice(["perm", "rot", "shear"]), sp)
+        if p.get("slope") is not None and (p["slope"], p["inter"]) != (1.0, 0.0) \
+                and p["dtype"] != "rgb" and np.dtype(p["dtype"]).kind in "iu":
+            if np.dtype(p["dtype"]).kind == "i" and rng.random() < 0.6:
+                continue               # mostly unsigned storage: the types the info can name as they are
+            if rng.random() < 0.7:     # scalings whose results the stored type often cannot hold
+                p["slope"], p["inter"] = rng.choice([(0.5, 0.0), (0.25, 1.0), (2.0, -2.5), (1.0, -1024.0),
+                                                     (3.0, -1.0), (0.5, -2.5)])
+            return p, data
+
+
+def make_multifile_history(rng, nrng, sp, pattern):
+    """several files, one process, function API; the ignore_scaling argument
+    differs between the calls (pattern: which value comes first)"""
+    n = rng.choice([2, 3, 3, 4])
+    if pattern == "true_first":
+        flags = [True] + [rng.random() < 0.2 for _ in range(n - 1)]
+        flags[rng.randrange(1, n)] = False
+    elif pattern == "false_first":
+        flags = [False] + [rng.random() < 0.7 for _ in range(n - 1)]
+        flags[rng.randrange(1, n)] = True
+    else:
+        flags = [rng.random() < 0.5 for _ in range(n)]
+    steps = []
+    for k in range(n):
+        if rng.random() < 0.75:
+            p, data = scaled_int_plan(rng, nrng, sp)
+        else:
+            p, data = make_plan(rng, nrng, rng.choice(["perm", "rot", "shear"]), sp)
+        steps.append({"plan": p, "data": data, "ignore": flags[k],
+                      "via": rng.choice(["file_to_info", "file_to_info", "image_to_info", "store"])})
+    return steps
+
+
 def history_json(steps):
     out = []
     for st in steps:
@@ -410,6 +452,10 @@ def run(ctx):
         "may be read entirely as millimetres (what the package documents) or entirely in its declared "
         "unit; resolution, direction columns and translation must agree on ONE of the two; files "
         "declaring mm or nothing are read as millimetres",
+        "multi-file histories: a call is judged on the file and the ignore_scaling argument IT was given, "
+        "whatever earlier calls in the process were given; an options dictionary is the caller's: "
+        "nothing is demanded about its content after a call; the first default-options call of each "
+        "entry point in the process is arranged to pass ignore_scaling=True (ordering of inputs only)",
         "same-path histories: every generation in a process is judged against the file found at that "
         "path at the time of the call (content, header scaling mode of THAT call); nothing is demanded "
         "of files or image objects after the call",
@@ -471,6 +517,20 @@ def run(ctx):
                                     subs[k % len(subs)]))
     histories = [make_history(rng3, nrng3, sp, ("replaced", "scaling_toggle")[k % 2])
                  for k in range(ctx.pick(24, 600))]
+    rng5 = random.Random(ctx.seed * 1000003 + 16 + 4 * 7919)
+    nrng5 = ctx.np_rng(5)
+    # (an opening history makes the first default-options call of every entry point pass
+    # ignore_scaling=True - ordering of inputs only: a default argument object lives as long
+    # as the process)
+    multis = [(("default", "shared")[k % 2],
+               ("true_first", "true_first", "false_first", "false_first", "mixed", "mixed")[k % 6])
+              for k in range(ctx.pick(24, 600))]
+    multis = [(mode, pat, make_multifile_history(rng5, nrng5, sp, pat)) for (mode, pat) in multis]
+    opening = []
+    for via in ad.ENTRY_POINTS:         # each entry point's first default-options call: ignore_scaling=True
+        p0, d0 = scaled_int_plan(rng5, nrng5, sp)
+        opening.append({"plan": p0, "data": d0, "ignore": True, "via": via})
+    multis.insert(0, ("default", "opening_all_true", opening))
     done = []
     transforms = []
     for p, data in plans:
@@ -486,6 +546,10 @@ def run(ctx):
     for (style, steps) in histories:
         case, results = ad.run_samepath_case(work, steps)
         hdone.append((style, steps, case, results))
+    for (mode, pat, steps) in multis:
+        first_default = dict(ad.FIRST_DEFAULT_CALL)
+        case, results = ad.run_multifile_case(work, steps, mode)
+        hdone.append(("multifile/%s/%s" % (mode, pat), steps, case, results, mode, first_default))
     cmats = compact_matrices(ctx, transforms[::max(1, len(transforms) // ctx.pick(60, 600))])
     cdone = [(M,) + ad.compact_case(M) for M in cmats]
     cases = [c for (_, _, c, _) in done] + [c for (_, c, _, _) in cdone] + [r[6] for r in rdone] \
@@ -542,7 +606,9 @@ def run(ctx):
                                      "data2": data_to_json(d2)},
                            "runs": results, "case": case})
     hist_styles = {}
-    for (style, steps, case, results) in hdone:
+    for h in hdone:
+        style, steps, case, results = h[:4]
+        multi = {"mode": h[4], "first_default_call": h[5]} if len(h) > 4 else None
         ctx.count()
         hj = history_json(steps)
         ctx.nontrivial(json.dumps(["history", [{k: v for k, v in q.items() if k != "data"} for q in hj]]))
@@ -551,12 +617,16 @@ def run(ctx):
         if st != "ok":
             ck = "%s history=%s" % (clause, style)
             classes[ck] = classes.get(ck, 0) + 1
-            ctx.violation(clause, {"tool": "volume_file_to_info / volume-to-precomputed main, several calls on "
-                                           "one path in one process", "clause": clause, "history": style,
+            ctx.violation(clause, {"tool": ("volume_file_to_info / nibabel_image_to_info / store_nibabel_image_to_"
+                                            "fullres_info, several files in one process") if multi else
+                                           ("volume_file_to_info / volume-to-precomputed main, several calls on "
+                                            "one path in one process"), "clause": clause, "history": style,
+                                   "options": multi["mode"] if multi else "explicit",
                                    "steps": [[s_["via"], s_["ignore"], s_["replaced"]] for s_ in case["steps"]],
                                    "exits": [r.get("exit") for r in results],
                                    "exc": [r.get("exc", "") for r in results]},
-                          {"history": {"style": style, "steps": hj}, "runs": results, "case": case})
+                          {"history": {"style": style, "steps": hj, "multifile": multi},
+                           "runs": results, "case": case})
     ctx.notes["violation_classes"] = classes
     ctx.notes["same_path_histories"] = hist_styles
     ctx.notes["rerun_cases_by_destination_state_and_second_run"] = rerun_outcomes
@@ -593,7 +663,13 @@ def replay(ctx, path):
         case, res, text = ad.compact_case(M)
     elif "history" in d:
         work = ctx.scratch("verif_affine_")
-        case, _ = ad.run_samepath_case(work, history_from_json(d["history"]["steps"]))
+        multi = d["history"].get("multifile")
+        if multi:
+            if multi["mode"] == "default" and multi["first_default_call"]:
+                ad.prime_default_options(work, multi["first_default_call"])
+            case, _ = ad.run_multifile_case(work, history_from_json(d["history"]["steps"]), multi["mode"])
+        else:
+            case, _ = ad.run_samepath_case(work, history_from_json(d["history"]["steps"]))
     elif "rerun" in d:
         rr = d["rerun"]
         p1, p2 = plan_from_json(rr["plan1"]), plan_from_json(rr["plan2"])
